@@ -369,6 +369,7 @@ structure GF (sc : SCfg) (rc : RCfg) (fl : Faults) (f : Bytes) (st : NetState) (
   ks_sorted : ks.Pairwise (· ≤ ·)
   ks_rng : ∀ k ∈ ks, B ≤ k + 1 ∧ k ≤ nblocks sc.b f
   lost : nblocks sc.b f ∉ ks → fl.dropAck.contains (st.na - 1) = true
+  rgood : st.r.received = blocksUpTo sc.b f st.r.received.length
 
 def gsMeasure (sc : SCfg) (fl : Faults) (f : Bytes) (st : NetState) (B R : Nat) (ds ks : List Nat) : Nat :=
   (nblocks sc.b f - R) + (6 * sc.w + 1) * (nblocks sc.b f + 1 - B) + (6 * sc.w + 1) * (dropsTotal fl - st.timeouts) +
@@ -474,7 +475,7 @@ theorem gs_data (sc : SCfg) (rc : RCfg) (lc : LoopCfgT sc rc) (fl : Faults) (f :
         unfold emitAcks
         simp only [h3, hone, hc, List.length_singleton]
       rw [hst']
-      refine ⟨B, ks ++ List.replicate c k, sinv, srun, sbase, mpos, ssince, by show B + s.win.elems.length - 1 = nblocks sc.b f; omega, h1, ?_, ?_, ?_, ?_, ?_⟩
+      refine ⟨B, ks ++ List.replicate c k, sinv, srun, sbase, mpos, ssince, by show B + s.win.elems.length - 1 = nblocks sc.b f; omega, h1, ?_, ?_, ?_, ?_, ?_, ?_⟩
       · show (rStep rc r _).1.win.file.content = f
         rw [h4, hrecv', ← hc1, hN]
         unfold blocksUpTo
@@ -493,6 +494,8 @@ theorem gs_data (sc : SCfg) (rc : RCfg) (lc : LoopCfgT sc rc) (fl : Faults) (f :
         cases c with
         | zero => rfl
         | succ n => exfalso; apply hnot; rw [← hN]; simp [List.replicate_succ]
+      · show (rStep rc r _).1.received = blocksUpTo sc.b f (rStep rc r _).1.received.length
+        rw [hrecv', blocksUpTo_length]
     · right
       have hkne : k ≠ nblocks sc.b f := by
         intro he
@@ -902,8 +905,8 @@ theorem gf_step (sc : SCfg) (rc : RCfg) (lc : LoopCfgT sc rc) (fl : Faults) (f :
     ∃ st', netStep sc rc fl st = some st' ∧
       (LFDone fl f st' ∨ ∃ B' ks', GF sc rc fl f st' B' ks' ∧ gfMeasure sc f st' B' ks' < gfMeasure sc f st B ks) := by
   obtain ⟨s, r, dq, aq, nd, na, tmo⟩ := st
-  obtain ⟨sinv, srun, sbase, mpos, ssince, stop, rok, rfile, aq_eq, ks_sorted, ks_rng, lost⟩ := h
-  simp only at sinv srun sbase mpos ssince stop rok rfile aq_eq ks_sorted ks_rng lost
+  obtain ⟨sinv, srun, sbase, mpos, ssince, stop, rok, rfile, aq_eq, ks_sorted, ks_rng, lost, rgood⟩ := h
+  simp only at sinv srun sbase mpos ssince stop rok rfile aq_eq ks_sorted ks_rng lost rgood
   have hw := lc.hw
   have hlenw := sinv.len_le
   have hsbn : s.bn = B % 65536 := by rw [sinv.bn_eq, sbase]
@@ -914,7 +917,7 @@ theorem gf_step (sc : SCfg) (rc : RCfg) (lc : LoopCfgT sc rc) (fl : Faults) (f :
   cases dq with
   | cons x rest =>
     refine ⟨⟨s, r, rest, ks.map (· % 65536), nd, na, tmo⟩, ?_, Or.inr ⟨B, ks, ⟨sinv, srun, sbase, mpos, ssince, stop, rok,
-      rfile, rfl, ks_sorted, ks_rng, lost⟩, ?_⟩⟩
+      rfile, rfl, ks_sorted, ks_rng, lost, rgood⟩, ?_⟩⟩
     · obtain ⟨n, d⟩ := x
       simp only [netStep, receiverRunning, rok]
       rfl
@@ -964,7 +967,7 @@ theorem gf_step (sc : SCfg) (rc : RCfg) (lc : LoopCfgT sc rc) (fl : Faults) (f :
             simp only [hout', lc.hrep, hdata, applyFaults_map, List.nil_append, List.length_map, List.length_range']
           rw [hst']
           refine ⟨k + 1, ks', ⟨hi', hrun', hbase', hpos', hsince',
-            by show k + 1 + (sStep sc s _ 0).1.win.elems.length - 1 = nblocks sc.b f; omega, rok, rfile, rfl, hsorted.2, ?_, ?_⟩, ?_⟩
+            by show k + 1 + (sStep sc s _ 0).1.win.elems.length - 1 = nblocks sc.b f; omega, rok, rfile, rfl, hsorted.2, ?_, ?_, rgood⟩, ?_⟩
           · intro x hx
             have h1 := hsorted.1 x hx
             have h2 := ks_rng x (by simp [hx])
@@ -996,7 +999,7 @@ theorem gf_step (sc : SCfg) (rc : RCfg) (lc : LoopCfgT sc rc) (fl : Faults) (f :
           simp [hno, dataOf, applyFaults]
         rw [hst']
         refine ⟨B, ks', ⟨sinv, srun, sbase, mpos, ssince, stop, rok, rfile, rfl, hsorted.2,
-          fun x hx => ks_rng x (by simp [hx]), ?_⟩, ?_⟩
+          fun x hx => ks_rng x (by simp [hx]), ?_, rgood⟩, ?_⟩
         · intro hnot
           apply lost
           intro hmem
@@ -1033,7 +1036,7 @@ theorem gf_step (sc : SCfg) (rc : RCfg) (lc : LoopCfgT sc rc) (fl : Faults) (f :
           unfold emitData
           simp only [lc.hrep, hsbn, hdata, applyFaults_map, List.nil_append, List.length_map, List.length_range']
         refine ⟨_, hstep, Or.inr ⟨B, [], ⟨sinv.with_retry _ (by omega), srun, sbase, mpos, ssince, stop, rok, rfile, rfl,
-          List.Pairwise.nil, by simp, lost⟩, ?_⟩⟩
+          List.Pairwise.nil, by simp, lost, rgood⟩, ?_⟩⟩
         unfold gfMeasure
         have hl := applyFaults_length_le fl.dropData fl.dupData nd (List.range' B s.win.elems.length)
         rw [List.length_range'] at hl
